@@ -525,6 +525,9 @@ func (m *c23) judgeAppEdit(desc string, P, S string, pre, post map[string]appRec
 	if !n.Address.Equals(o.Address) || !pubEq(n.PublicKey, o.PublicKey) {
 		c.Violation("C23/app-edit/address-or-key-changed", "%s", ctxs())
 	}
+	if o.Jailed {
+		c.Label("app-edit-of-jailed-application")
+	}
 	if n.Jailed != o.Jailed {
 		c.Violation("C23/app-edit/jailed-flag-changed", "%s", ctxs())
 	}
@@ -578,11 +581,27 @@ func TestC23(t *testing.T) {
 			m := &c23{c: c, w: w, n: n}
 			nb := 14 + uniformN(rt, "blocks", 11)
 			operators := append(append([]crypto.PrivateKey{}, w.ops...), w.spares...)
+			jailAppAt := -1
+			if rapid.Bool().Draw(rt, "jailAppA") && rapid.Bool().Draw(rt, "jailAppB") {
+				jailAppAt = rapid.IntRange(0, 3).Draw(rt, "jailAppAt")
+			}
 			for b := 0; b < nb; b++ {
 				dt := time.Duration(pickI64(rt, "dtSecs", 1, 1, 5, 30)) * time.Second
 				blk := chain.Block{DT: dt, Absent: map[string]bool{}}
 				if w.victim != nil {
 					blk.Absent[hx(chain.Addr(w.victim))] = true
+				}
+				// Jailed applications are a state the module supports (JailApplication in the keeper interface other modules
+				// see, an unjail message and handler), although no transaction of this version jails one: in a quarter of the
+				// histories the second application is jailed through the keeper between two blocks, and later edits of it must
+				// keep the flag.
+				if b == jailAppAt {
+					ak, addr := n.App.VerifAppsKeeper(), chain.Addr(w.apps[1])
+					if a, ok := ak.GetApplication(n.Ctx(), addr); ok && a.IsStaked() && !a.IsJailed() {
+						ak.JailApplication(n.Ctx(), addr)
+						c.Opf("[keeper] JailApplication(%s)", w.dir.name(addr))
+						c.Label("application-jailed-through-keeper")
+					}
 				}
 				n.BeginBlock(blk)
 				h := n.Height + 1
